@@ -215,8 +215,9 @@ def run(chk, repo, tier):
             clipped = [nf.app('setitem', fr, nf.app('lt', cap, fr), cap) for fr in frames]
             cube_src = None
             for lp in p.state.loops:
-                if 'img_cube' in lp['pre'] and lp['pre']['img_cube'] is not None:
-                    cube_src = lp['pre']['img_cube']
+                for nm, pre_v in lp['pre'].items():
+                    if isinstance(pre_v, Poly) and any(is_app(x, ('repeat', 'tile', 'broadcast_to', 'stack')) for x in nf.value_atoms(pre_v)):
+                        cube_src = pre_v      # the cube of electron counts, whatever the variable is called
             es = einsums(p.ret)
             if cube_src is None and es:
                 cube_src = es[0][2][1]
